@@ -28,6 +28,9 @@ def run(ctx, chk):
              'ram_bank iff mode 1; MBC3 RAM bank = register', floor=4)
     chk.rule('C12.4', 'D', 'bank numbers are reduced to the cartridge size at every ROM / cartridge-RAM access site '
              '(index provably inside the buffer for every header configuration)', floor=3)
+    chk.rule('C12.7', 'D', 'a bank number that exists in the cartridge selects that bank: at every ROM / cartridge-RAM access '
+             'site the reduction to the cartridge size is the identity on bank numbers below the bank count, for every '
+             'ROM and RAM size a header can declare (so every bank is reachable)', floor=20)
     chk.rule('C12.5', 'D', '0x0000-0x3fff always shows bank 0 (index is the address, no controller term)', floor=1)
     chk.rule('C12.6', 'D', 'Header::get_cart_type and Header::create_cart_state agree on controller families', floor=3)
     facts = ctx.facts('default')
@@ -142,6 +145,7 @@ def run(ctx, chk):
             else:
                 chk.fail('C12.3', 'ROM-only:constants', 'ROM-only cartridge does not report ROM bank 1 / RAM bank 0', cfile, None)
     reduction(ctx, chk, facts, prog)
+    identity_on_valid_banks(ctx, chk, facts, prog)
     # ---- rule 5
     model = bm.BusModel(facts)
     for p in model.read_paths():
@@ -296,3 +300,114 @@ def reduction(ctx, chk, facts, prog):
                      prog.fns[fn]['file'] if fn in prog.fns else 'src/cache/mod.rs', None)
         else:
             chk.ok('C12.4', key, sample={'site': fn, 'configurations': nconf})
+
+
+def identity_on_valid_banks(ctx, chk, facts, prog):
+    """The controller's bank number B (result of get_rom_bank / get_ram_bank, any value) is reduced to the image size by
+    the access site.  For each declared size: B < bank count  =>  the bank actually indexed is B.  The indexed bank is
+    read off the affine form of the buffer index (coefficient = bank stride); B is kept symbolic by making the
+    controller getter opaque; the implication is decided bit-precisely (division by the concrete count included)."""
+    from ..affine import aff
+    from ..bdd import BDD, BV, TermBV, Unsupported
+    cs = headercfg.configuration_space(facts)
+    fixed = headercfg.fixed_buffer_sizes(facts)
+    getters = {}
+    for ty in ('cart::MBC1CartState', 'cart::MBC3CartState'):
+        for g in ('get_rom_bank', 'get_ram_bank'):
+            getters[(ty, g)] = '<%s as cart::CartState>::%s' % (ty, g)
+    mfile = 'src/mem.rs'
+    jobs = []
+    for banks in cs['bank_counts']:
+        jobs.append(('rom', banks, 0x4000, 0x7fff, 'get_rom_bank', {'rom': banks * cs['rom_factor'], 'cart_ram': 0x8000}))
+    for ram in cs['ram_sizes']:
+        if ram >= 0x4000:
+            jobs.append(('cart_ram', ram // 0x2000, 0xa000, 0xbfff, 'get_ram_bank', {'rom': 0x8000, 'cart_ram': ram}))
+    for buf, count, lo, hi, getter, lens in jobs:
+        for b, v in fixed.items():
+            if v[0] == 'const':
+                lens.setdefault(b, v[1])
+        for ty in ('cart::MBC1CartState', 'cart::MBC3CartState'):
+            key = '%s:%s:%d-banks' % (buf, ty.split('::')[-1], count)
+
+            def sf(t, lens=lens):
+                m_ = t[3]
+                if m_ and m_[0] == 'len':
+                    b_ = bm.buffer_of(m_[1])
+                    if b_ in lens:
+                        return AV.const(64, lens[b_])
+                return None
+            ip = absint.Interp(facts, sym_facts=sf, dyn_filter=(lambda mth, t_, ty=ty: t_ == ty),
+                               opaque=[IO_GET, IO_SET, getters[(ty, getter)]], trust_asserts=('overflow', 'bounds', 'slice_index'))
+            st = ip.new_state()
+            st.env.assume(bm.ADDR, AV(16, lo, hi))
+            found = 0
+            bad = None
+            for r in ip.run(bm.RD, [S(0, 'areas'), bm.ADDR], st):
+                if r.status != 'ok' or r.ret is None or r.ret[0] != 's' or not r.ret[3] or r.ret[3][0] != 'elem':
+                    continue
+                if bm.buffer_of(r.ret[3][1]) != buf:
+                    continue
+                idx = r.ret[3][2]
+                calls = [e for e in r.state.events if e[0] == 'call' and e[1] == getters[(ty, getter)]]
+                if not calls:
+                    continue
+                B = calls[-1][3]
+                co, c0, w = aff(idx, r.state.env)
+                atoms = [(a, k) for a, k in co.items() if B in _syms_of(a)]
+                if len(atoms) != 1:
+                    bad = bad or 'index %s does not contain the controller bank number exactly once' % fmt(idx)[:100]
+                    continue
+                EB, stride = atoms[0]
+                found += 1
+                try:
+                    m = BDD()
+
+                    def known(t, sf=sf):
+                        av = sf(t)
+                        if av is not None and av.is_const():
+                            return ((~av.lo) & ((1 << t[1]) - 1), av.lo)
+                        return (0, 0)
+                    conv = TermBV(m, known)
+                    vb = conv(B)
+                    ve = conv(EB)
+                    if len(ve) != len(vb):
+                        ve = ve.zext(len(vb)) if len(ve) < len(vb) else ve.trunc(len(vb))
+                    D = m.AND(vb.ult(BV.const(m, len(vb), count)), ve.diff(vb))
+                    if D != 0:
+                        wv = m.witness(D)
+                        bsel = wv.get(B[2], 0)
+                        got = 0
+                        for i_, n_ in enumerate(ve.b):
+                            while n_ > 1:
+                                v_, lo_, hi_ = m.node[n_]
+                                sy, bit = m.names[v_]
+                                n_ = hi_ if (wv.get(sy, 0) >> bit) & 1 else lo_
+                            got |= n_ << i_
+                        bad = bad or ('with %d banks of %s, the controller selects bank %d (which exists) but bank %d is '
+                                      'indexed (reduction %s)' % (count, buf, bsel, got, fmt(EB)[:80]))
+                except Unsupported as e:
+                    chk.error('C12.7 %s: outside the bit-vector fragment: %s' % (key, e.why))
+                    bad = None
+                    found = -1
+                    break
+            if found < 0:
+                continue
+            if bad:
+                chk.fail('C12.7', key, bad, mfile, None)
+            elif not found:
+                chk.error('C12.7 %s: no banked access path found' % key)
+            else:
+                chk.ok('C12.7', key, sample={'buffer': buf, 'controller': ty, 'banks': count} if count in (72, 4) else None)
+
+
+def _syms_of(t):
+    out = set()
+    stack = [t]
+    while stack:
+        x = stack.pop()
+        if isinstance(x, tuple) and x:
+            if x[0] == 's':
+                out.add(x)
+            elif x[0] == 'o':
+                stack.extend(x[3:])
+    return out
